@@ -622,6 +622,11 @@ partial def loop (h : IO.FS.Stream) (out : IO.FS.Stream) (hist : Option HistStat
     | none => out.putStrLn "bad-op"
     | some st => out.putStrLn (((xopenLine st rest).getD "bad-op") ++ " | " ++ digest st)
     loop h out hist bm dyn snap
+  | "H" :: "xclose22" :: rest =>
+    match hist with
+    | none => out.putStrLn "bad-op"
+    | some st => out.putStrLn (((xclose22Line st rest).getD "bad-op") ++ " | " ++ digest st)
+    loop h out hist bm dyn snap
   | "H" :: "xlock" :: rest =>
     match hist with
     | none => out.putStrLn "bad-op"
